@@ -35,11 +35,14 @@ def padded_headers(base: List[Tuple[bytes, bytes]], target: int, name: bytes = b
 
 
 class RogueH2:
-    def __init__(self, ack_settings: bool = False) -> None:
+    def __init__(self, ack_settings: bool = False, upgrade: bool = False) -> None:
         self.tx = h2.connection.H2Connection(config=h2.config.H2Configuration(
             client_side=True, header_encoding=None, validate_outbound_headers=False, normalize_outbound_headers=False))
         self.tx.local_settings.update({h2.settings.SettingCodes.ENABLE_PUSH: 0})
-        self.tx.initiate_connection()
+        if upgrade:      # the connection was opened by an HTTP/1.1 `Upgrade: h2c` request (stream 1 is the server's to answer)
+            self.tx.initiate_upgrade_connection()
+        else:
+            self.tx.initiate_connection()
         self.ack_settings = ack_settings
         self._extra = b""
         self.buf = b""
